@@ -119,3 +119,7 @@ def is_xml(data):
         return True
     except ET.ParseError:
         return False
+
+
+def has_own(obj, name):
+    return name in vars(obj)
